@@ -226,6 +226,18 @@ func newProgGen(t *rapid.T, cfg ProgCfg) *progGen {
 		}
 		g.ops = append(g.ops, op)
 	}
+	if cfg.Journal {
+		// hostile mode: the journal opcodes with arbitrary operands (operand counts
+		// written down here; upstream does not know these opcodes)
+		for op, pops := range map[byte]int{RSVJNAL: 3, VSVJNAL: 4, IRVVJNAL: 6, IRVRJNAL: 5, IVVVJNAL: 6, IVVRJNAL: 5, VVJNAL: 4, VRJNAL: 2} {
+			tab := *g.tab
+			tab[op] = opInfo{Defined: true, Pops: pops}
+			g.tab = &tab
+		}
+		for op := byte(RSVJNAL); op <= VRJNAL; op++ {
+			g.ops = append(g.ops, op, op, op) // favoured
+		}
+	}
 	n := cfg.Contracts
 	if n == 0 {
 		n = 3
@@ -267,6 +279,27 @@ func (g *progGen) genAddr(label string) *uint256.Int {
 		return w.Or(w, hi)
 	default:
 		return genWord(t, label+".aw")
+	}
+}
+
+// hostileWord: operands for journal instructions - pointers around the scratch
+// area and the end of memory, slots that hold prepared (hostile) strings,
+// offsets / sizes around 31/32/33, huge values.
+func (g *progGen) hostileWord(label string) *uint256.Int {
+	t := g.t
+	switch uniform(t, 0, 9, label+".hk") {
+	case 0, 1:
+		return uint256.NewInt(pickU64(t, label+".hp", 0, 0x20, jMemName, jMemName+0x20, 0x3e0, 0x400, 0x1000, 0xffff))
+	case 2, 3:
+		return uint256.NewInt(pickU64(t, label+".hs", 0, 1, 2, 0x1000, 0x1001, 0x1002, 0x7000, 0x7001, 0x7002, 0x7003, 0x7004, 0x7005))
+	case 4, 5:
+		return uint256.NewInt(pickU64(t, label+".ho", 0, 1, 4, 8, 16, 28, 31, 32, 33, 255, 256))
+	case 6:
+		return uint256.NewInt(pickU64(t, label+".hh", 1<<20, 1<<31, 1<<32, 1<<62, 1<<63, 1<<63+1, ^uint64(0)-31, ^uint64(0)))
+	case 7:
+		return new(uint256.Int).Lsh(uint256.NewInt(1), uint(pickInt(t, label+".hsh", 64, 65, 128, 255)))
+	default:
+		return genWord(t, label+".hw")
 	}
 }
 
@@ -332,6 +365,12 @@ func (g *progGen) operands(op byte, pops int) []*uint256.Int {
 		// table entry has a cost but no operands; treat it as an opaque opcode
 		for i := range out {
 			out[i] = w(i)
+		}
+		return out
+	}
+	if op >= RSVJNAL && op <= VRJNAL {
+		for i := range out {
+			out[i] = g.hostileWord("jw")
 		}
 		return out
 	}
